@@ -12,7 +12,7 @@ import itertools
 import random
 import sqlite3
 
-from ..exprparse import ParseError, norm, parse_expr
+from ..exprparse import ParseError, norm, parse_expr, unbracket
 from ..fingerprint import contexts
 from ..lex import DIALECT_OF, tokenize
 from ..prog import DIALECT_CLASSES, registry
@@ -40,11 +40,12 @@ PARENTS = {  # kind -> positions
     "add": ["l", "r"], "sub": ["l", "r"], "mul": ["l", "r"], "div": ["l", "r"], "neg": ["a"],
     "eq": ["l", "r"], "lt": ["l", "r"], "like": ["l", "p"], "in": ["l", "v"], "between": ["l", "lo", "hi"],
     "notin": ["l", "v"], "in-negated": ["l", "v"], "notlike": ["l", "p"], "notnull": ["l"],
+    "bracket": ["a"], "any": ["l", "r"], "all": ["l", "r"], "any3": ["l", "r"],
     "isnull": ["l"], "not": ["a"], "and": ["l", "r"], "or": ["l", "r"], "xor": ["l", "r"], "fn": ["a0", "a1"], "mod": ["a0", "a1"],
     "case": ["c", "t", "e"],
 }
 COMPOUND = list(PARENTS)
-BOOLISH = {"eq", "lt", "like", "in", "between", "isnull", "not", "and", "or", "xor", "notin", "in-negated", "notlike", "notnull"}
+BOOLISH = {"eq", "lt", "like", "in", "between", "isnull", "not", "and", "or", "xor", "notin", "in-negated", "notlike", "notnull", "any", "all", "any3"}
 
 
 class Names:
@@ -85,6 +86,12 @@ def mk(kind, names, **child):
         return {"t": "between", "l": g("l"), "lo": child.get("lo") or {"t": "c", "v": 1}, "hi": child.get("hi") or {"t": "c", "v": 9}}
     if kind == "isnull":
         return {"t": "isnull", "l": g("l")}
+    if kind == "bracket":  # an explicit Bracket(...) wrapper: its parentheses are part of the tree
+        return {"t": "bracket", "a": child.get("a") or mk("add", names)}
+    if kind in ("any", "all"):  # groups built by the helpers Criterion.any / Criterion.all
+        return {"t": "or" if kind == "any" else "and", "l": child.get("l") or mk("eq", names), "r": child.get("r") or mk("lt", names), "via": kind}
+    if kind == "any3":
+        return {"t": "or", "l": {"t": "or", "l": child.get("l") or mk("eq", names), "r": mk("isnull", names)}, "r": child.get("r") or mk("lt", names), "via": "any3"}
     if kind == "not":
         return {"t": "not", "a": child.get("a") or mk("eq", names)}
     if kind in ("and", "or", "xor"):
@@ -143,7 +150,7 @@ def random_tree(rnd, depth, names, want_bool=False):
     kind = rnd.choice(COMPOUND)
     ch = {}
     for pos in PARENTS[kind]:
-        if kind in ("and", "or", "xor", "not") or (kind == "case" and pos == "c"):
+        if kind in ("and", "or", "xor", "not", "any", "all", "any3") or (kind == "case" and pos == "c"):
             ch[pos] = random_tree(rnd, depth - 1, names, True)
             if ch[pos]["t"] in ("c",) or (ch[pos]["t"] in ("bin", "neg", "fn", "case")):
                 ch[pos] = mk("eq", names, l=ch[pos])
@@ -245,6 +252,16 @@ def build(t):
             return build(t["l"]).isnull()
         if k == "not":
             return ~build(t["a"])
+        if k == "bracket":
+            return reg["Bracket"](build(t["a"]))
+        if k in ("and", "or") and t.get("via") in ("any", "all", "any3"):
+            if t["via"] == "any3":
+                parts = [build(t["l"]["l"]), build(t["l"]["r"]), build(t["r"])]
+            else:
+                parts = [build(t["l"]), build(t["r"])]
+            if not all(isinstance(x, reg["Criterion"]) for x in parts):
+                raise Unbuildable("%s needs criteria" % t["via"])
+            return reg["Criterion"].all(parts) if t["via"] == "all" else reg["Criterion"].any(parts)
         if k in ("and", "or", "xor"):
             l, r = build(t["l"]), build(t["r"])
             if not isinstance(l, reg["Criterion"]) or not isinstance(r, reg["Criterion"]):
@@ -292,6 +309,8 @@ def ref_sql(t):
         return "(%s BETWEEN %s AND %s)" % (ref_sql(t["l"]), ref_sql(t["lo"]), ref_sql(t["hi"]))
     if k == "isnull":
         return "(%s IS NULL)" % ref_sql(t["l"])
+    if k == "bracket":
+        return "(%s)" % ref_sql(t["a"])
     if k == "not":
         return "(NOT %s)" % ref_sql(t["a"])
     if k in ("and", "or"):
@@ -372,7 +391,7 @@ def children(t):
     k = t["t"]
     if k == "bin" or k in ("and", "or", "xor") or k == "cmp":
         return [("left", t["l"]), ("right", t["r"])]
-    if k in ("neg", "not"):
+    if k in ("neg", "not", "bracket"):
         return [("operand", t["a"])]
     if k == "like":
         return [("left", t["l"]), ("pattern", t["p"])]
@@ -417,7 +436,7 @@ def with_children(t, new):
     k = t["t"]
     if k in ("bin", "and", "or", "xor", "cmp"):
         t["l"], t["r"] = next(it), next(it)
-    elif k in ("neg", "not"):
+    elif k in ("neg", "not", "bracket"):
         t["a"] = next(it)
     elif k == "like":
         t["l"], t["p"] = next(it), next(it)
@@ -547,7 +566,7 @@ def run_filter(case, mon):
     tree = conds[0]
     for c in conds[1:]:
         tree = {"t": "and", "l": tree, "r": c}
-    want = norm(tree)
+    want = norm(unbracket(tree))
     try:
         built = [build(c) for c in conds]
     except Unbuildable:
@@ -615,7 +634,7 @@ def run_case(case, mon):
         if case["k"] == "triple":
             mon.add("triples_unbuildable", "%s/%s/%s" % (case["p"], case["pos"], case["c"]))
         return
-    want = norm(tree)
+    want = norm(unbracket(tree))
     compound = any(ch["t"] not in ("f", "c") for _, ch in children(tree))
     if compound or cat(tree) != "leaf":
         mon.nontrivial(tree)
